@@ -18,6 +18,26 @@
 #include "iwconv.h"
 #include <errno.h>
 #include <math.h>
+#include <signal.h>
+#include <unistd.h>
+#include <sys/time.h>
+
+// Per-query watchdog (termination claim): every query may use WATCHDOG_S seconds of CPU time (ITIMER_PROF: user + system
+// time of THIS process, so a loaded machine does not matter).  When it fires the answer of the query is the line
+// `TIMEOUT` and the process exits with 77; the check restarts the harness after the culprit.
+#ifndef WATCHDOG_S
+#define WATCHDOG_S 3
+#endif
+static void on_watchdog(int sig) {
+  (void) sig;
+  static const char msg[] = "TIMEOUT\n";     // pending partial output of the query sits in the stdio buffer and is dropped
+  ssize_t r = write(1, msg, sizeof(msg) - 1); (void) r;
+  _exit(77);
+}
+static void watchdog(int seconds) {
+  struct itimerval it = { { 0, 0 }, { seconds, 0 } };
+  setitimer(ITIMER_PROF, &it, 0);
+}
 
 // hex -> exactly sized heap buffer, terminator is the last byte (hcommon's unhex leaves "-" unterminated)
 static size_t unhex0(const char *h, uint8_t **out) {
@@ -132,7 +152,10 @@ int main(void) {
   static char line[1 << 22];
   char *tv[40];
   setvbuf(stdout, 0, _IOLBF, 1 << 16);
-  while (fgets(line, sizeof(line), stdin)) {
+  signal(SIGPROF, on_watchdog);
+  int wd = getenv("H_SAFETY_WATCHDOG") ? atoi(getenv("H_SAFETY_WATCHDOG")) : WATCHDOG_S;
+  while ((watchdog(0), fgets(line, sizeof(line), stdin))) {
+    watchdog(wd);
     int n = toks(line, tv, 40);
     if (n < 2) { printf("\n"); continue; }
     int pre = atoi(tv[0]);
